@@ -84,6 +84,8 @@ def run_ops(obj, ops):
                 out.append(obj.pop(o[1]))
             elif o[0] == 'popdefault':
                 out.append(obj.pop(o[1], 'dflt'))
+            elif o[0] == 'getdefault':
+                out.append(obj.get(o[1], o[2]))
             elif o[0] == 'clear':
                 obj.clear()
                 out.append(None)
@@ -190,6 +192,8 @@ def p_history(x):
                 want.append(ref.pop(o[1].lower()))
             elif o[0] == 'popdefault':
                 want.append(ref.pop(o[1].lower(), 'dflt'))
+            elif o[0] == 'getdefault':
+                want.append(ref.get(o[1].lower(), o[2]))
             elif o[0] == 'clear':
                 ref.clear()
                 want.append(None)
@@ -314,8 +318,10 @@ def run(ctx):
             key = rng.choice(pool)
             if k < .25:
                 ops.append(['set', key, rng.choice(VALS)])
-            elif k < .45:
+            elif k < .4:
                 ops.append(['get', key])
+            elif k < .45:
+                ops.append(['getdefault', key, rng.choice(['dflt', '', 'x'])])
             elif k < .6:
                 ops.append(['del', key])
             elif k < .75:
@@ -346,7 +352,7 @@ def run(ctx):
                 kk = rng.choice(['Version', 'version', 'Priority', 'X_y', 'depends', 'Depends'])
                 ops2.append(rng.choice([['update_pairs', [[kk, 'p1'], [kk.upper(), 'p2']]], ['update_map', [[kk, 'm1']]], ['update_kw', kk, 'k1'],
                                         ['setdefault', kk, 'd1'], ['pop', kk], ['popdefault', kk], ['clear']]))
-                ops2.append(rng.choice([['todict'], ['len'], ['iter'], ['in', kk], ['get', kk]]))
+                ops2.append(rng.choice([['todict'], ['len'], ['iter'], ['in', kk], ['get', kk], ['getdefault', kk, 'dflt']]))
             if rng.random() < .3:
                 ops2.append(['observe', rng.choice(OBS)])
                 ops2.append(rng.choice([['todict'], ['len'], ['iter']]))
